@@ -23,7 +23,7 @@ def ns():
     from labrea.computation import Computation, CallbackEffect, ChainedEffect
     from labrea.logging import Logged
     from labrea.overload import Overloaded
-    from labrea.pipeline import Pipeline, PipelineStep, pipeline_step
+    from labrea.pipeline import Pipeline, PipelineStep, pipeline_step, Identity
     from labrea.cache import Cached, MemoryCache, NoCache
     from labrea.types import Apply, Bind
     import labrea.functions as F
@@ -176,7 +176,9 @@ RECIPES = {
                             "(lambda it: FunctionApplication(both, it, b=it))(Iter(Option('A')))"],
     "PartialApplication": ["PartialApplication(pair, b=Option('B', 2)) ", "Option('A') >> PartialApplication(pair, b=Option('B'))"],
     "PipelineStep": ["Option('A') >> F.add(Option('B', 1))"],
-    "Pipeline": ["Option('A') >> (F.add(Option('B', 1)) + F.multiply(Option('T', 2)))", "Option('A') >> (Pipeline() + inc)"],
+    "Pipeline": ["Option('A') >> (F.add(Option('B', 1)) + F.multiply(Option('T', 2)))", "Option('A') >> (Pipeline() + inc)",
+                 "Option('A', 1) >> (F.add(Option('B')) + Identity + F.multiply(Option('T', 2)))", "Option('A', 1) >> (Identity + F.add(Option('B')) + Identity)", "Option('A', 1) >> (F.add(Option('B')) + (Pipeline() + Identity))",
+                 "Option('A', 1) >> (Pipeline() + F.add(Option('B')))", "Option('A', 1) >> (F.add(Option('B')) + F.multiply(Option('T')))", "Option('A', 1) >> (F.add(Option('B')) + inc + F.multiply(Option('T', 2)))"],
     "Logged": ["Logged(Option('A'), 20, 'x', 'msg')"],
     "Computation": ["Computation(Option('A'), CallbackEffect(ident))"],
     "ChainedEffect": ["ds_eff(ident, F.add(Option('B')))", "ds_eff(F.add(Option('B')), ident)", "ds_eff(F.add(Option('B', 0)), F.add(Option('T')))"],
@@ -191,7 +193,8 @@ RECIPES = {
     "_AllOptions": ["AllOptions"],
     "Dataset": ["ds(Option('A'), Option('AB', 0), Option('A_DECAY', 1))","ds(Option('A'), Option('B', 2))", "ds(Option('A'), options={'B': 1})", "ds(ds(Option('A')), Option('S.X', 0), default_options={'S': {'X': 4}})",
                 "ds(Option('A'), Option('S.B', 0), Option('S.C', 'c-fallback'), default_options={'S': {'B': 2, 'C': 3}, 'T': 5})",
-                "ds(Option('A'), Option('B', 0), options={'X': 1}, default_options={'B': 3})"],
+                "ds(Option('A'), Option('B', 0), options={'X': 1}, default_options={'B': 3})",
+                "ds(Option('S.X', 0), Option('S.Y', 1), Option('S.A', 2), options={'S': {'Y': 5}})", "ds(Option('S.X', 0), Option('S.A', 2), Option('T', 3), options={'S': {'X': 5}, 'T': 0}, default_options={'S': {'A': 1}})"],
     "Map": ["Map(Option('S.X'), {'S.X': Option('XS')}).apply(list)", "Map(ds(Option('S.X'), Option('S.Y', 0)), {'S.X': [1, 2], 'S.Y': Option('XS')}).apply(list)","Map(switch(Option('K'), {'x': Option('X'), 'y': Option('Y')}), {'K': Option('KINDS')}).apply(list)","Map(Option('A'), {'A': Option('XS')}).apply(list)", "Map(ds(Option('A'), Option('B', 0)), {'A': Option('A'), 'B': Option('Y')}).apply(list)", "Map(Option('A'), {'A': Option('A')}).apply(list)", "Map(ds(Option('A'), Option('B', 0)), {'A': Option('XS'), 'B': [1, 2]}).apply(list)"],
 }
 
@@ -604,10 +607,19 @@ def check_law(law, expr, o, fresh):
                 want = outcome(lambda: fresh()(mix(copy.deepcopy(Q), copy.deepcopy(o))))
                 if not same(got, want):
                     return f"with_default_options({Q}) gives {got!r}; the dataset under the defaults overlaid by o gives {want!r}"
-                d2 = fresh()
-                d2.with_options(Q)
-                if d2.options != own or d2.default_options != dfl:
-                    return "with_options modified the dataset it derives from"
+                for how in ("with_options", "with_default_options"):
+                    d2 = fresh()
+                    before = outcome(lambda: d2(copy.deepcopy(o)))
+                    Q2 = copy.deepcopy(Q)
+                    getattr(d2, how)(Q2)
+                    if d2.options != own or d2.default_options != dfl:
+                        return f"{how}({Q}) modified the pre-set / default options of the dataset it derives from: {d2.options!r} / {d2.default_options!r}"
+                    if Q2 != Q:
+                        return f"{how}({Q}) modified the dictionary it was given: {Q2!r}"
+                    after = outcome(lambda: fresh()(copy.deepcopy(o)))
+                    again = outcome(lambda: d2(copy.deepcopy(o)))
+                    if not same(again, after):
+                        return f"after deriving a dataset with {how}({Q}) the original evaluates to {again!r}; a fresh one gives {after!r}"
             return None
         return None
     if law == "L6k":
